@@ -122,6 +122,13 @@ def main():
     from chython import smiles, smarts
     spec = json.load(open(sys.argv[1]))
     queries = [smarts(q) for q in spec['queries']]
+    if spec.get('set_programs_file'):
+        # histories of set/dict operations on REAL containers of this interpreter (this PYTHONHASHSEED): digest per program
+        import hashlib
+        from harness.props import c19_sets
+        progs = json.load(open(spec['set_programs_file']))
+        print(json.dumps({'set_digests': [hashlib.sha256(' | '.join(c19_sets.execute([tuple(op) for op in p])).encode()).hexdigest()[:20]
+                                          for p in progs]}))
     obs = observables(queries)
     keys = list(obs)
     for s in spec['smiles']:
